@@ -138,6 +138,13 @@ PARAM_PROGRAMS = {
         ["declare", "g", "ryd_glob"], ["enable_eom", "g", 2.0, 0.0, -1.0],
         ["add_eom", "g", E("var", "d"), E("var", "ph"), None, {"post_phase_shift": E("mul", ["var", "ph"], 2.0)}],
         ["delay", "g", E("mul", ["var", "d"], 2)], ["add_eom", "g", 16, 0.0], ["disable_eom", "g"]]),
+    # array-valued expressions with a literal-list operand (only InterpolatedWaveform takes parametrized arrays; scipy
+    # interpolation needs concrete numbers, so this template is built with concrete variable values)
+    "vars_list_operand": dict(device="mock", vars=[("arr", "float", 3), ("s", "float", 1)], concrete_vars=True, prog=[
+        ["declare", "g", "rydberg_global"],
+        ["add", "g", ["pulse", ["interp", 40, E("mul", ["var", "arr"], {"lit": [1.0, 0.5, 0.25]}), [0.0, 0.5, 1.0]],
+                      ["interp", 40, E("sub", ["var", "s"], {"lit": [0.0, 1.0, 2.0]}), [0.0, 0.5, 1.0]], 0.0]],
+        ["add", "g", ["cdet", ["interp", 40, E("mul", {"lit": [2.0, 1.0, 0.5]}, ["var", "arr"]), [0.0, 0.25, 1.0]], E("div", ["var", "s"], 2.0), 0.0]]]),
     "vars_dmm": dict(device="mock", vars=[("x", "float", 1)], prog=[
         ["declare", "g", "rydberg_global"], ["config_dmap", {"q0": 1.0, "q1": 0.5, "q2": 0.0}, "dmm_0"],
         ["add_dmm", "dmm_0", ["ramp", 16, E("neg", ["var", "x"]), E("div", ["neg", ["var", "x"]], 2.0)]],
@@ -184,6 +191,12 @@ def static_equal(a, b):
     terms.append(a.is_measured() == b.is_measured())
     if a.is_measured():
         terms.append(a.get_measurement_basis() == b.get_measurement_basis())
+    # detuning maps of DMM channels weigh the qubits identically
+    for n, cs in a._schedule.items():
+        if hasattr(cs, "detuning_map") and n in b._schedule and hasattr(b._schedule[n], "detuning_map") and not a.is_register_mappable():
+            wa = cs.detuning_map.get_qubit_weight_map(ra.qubits)
+            wb = b._schedule[n].detuning_map.get_qubit_weight_map(rb.qubits)
+            terms.append(l2.snap_equal(wa, wb))
     terms.append(a._in_xy == b._in_xy)
     terms.append(set(a._slm_mask_targets) == set(b._slm_mask_targets))
     return terms
@@ -199,14 +212,17 @@ def h_roundtrip(shape):
 
         seq = build_program(inp, P)
         obs = []
-        if shape["codec"] == "abstract":
-            s = seq.to_abstract_repr()  # includes real schema validation
-            doc = real_json.loads(s)
-            obs.append(("abstract:document_structure", isinstance(doc, dict) and {"device", "register", "channels", "operations", "measurement", "variables", "version"} <= set(doc)))
-            seq2 = Sequence.from_abstract_repr(s)
-        else:
-            s = seq._serialize()
-            seq2 = legacy_loads(s)
+        try:
+            if shape["codec"] == "abstract":
+                s = seq.to_abstract_repr()  # includes real schema validation
+                doc = real_json.loads(s)
+                obs.append(("abstract:document_structure", isinstance(doc, dict) and {"device", "register", "channels", "operations", "measurement", "variables", "version"} <= set(doc)))
+                seq2 = Sequence.from_abstract_repr(s)
+            else:
+                s = seq._serialize()
+                seq2 = legacy_loads(s)
+        except Exception as e:  # noqa: BLE001  (serialising is total on these programs and its output must decode)
+            return obs + [(shape["codec"] + ":roundtrip_completes", False)]
         obs.append((shape["codec"] + ":same_static_parts", AND(*static_equal(seq, seq2))))
         obs.append((shape["codec"] + ":identical_timeline", l2.snap_equal(l2.timeline(seq), l2.timeline(seq2))))
         obs.append((shape["codec"] + ":same_mag_field", l2.snap_equal(None if seq._mag_field is None else list(seq._mag_field),
@@ -239,7 +255,10 @@ def legacy_loads(s):
 def var_values(inp, P, tag):
     vals = {}
     for (name, typ, size) in P["vars"]:
-        if typ == "int":
+        if P.get("concrete_vars"):
+            base = 1.0 if tag == "v" else 0.75
+            v = [base + 0.5 * i for i in range(size)]
+        elif typ == "int":
             v = [inp.mult("%s_%s%d" % (tag, name, i), 4, 8, 40) for i in range(size)] if name != "t" else [1, 2][:size]
         else:
             v = [inp.real("%s_%s%d" % (tag, name, i), 0.125, 4) for i in range(size)]
@@ -257,10 +276,13 @@ def h_param_roundtrip(shape):
 
         tmpl = build_program(inp, P, env="declare")
         obs = [("param:template_is_parametrized", tmpl.is_parametrized())]
-        if shape["codec"] == "abstract":
-            t2 = Sequence.from_abstract_repr(tmpl.to_abstract_repr())
-        else:
-            t2 = legacy_loads(tmpl._serialize())
+        try:
+            if shape["codec"] == "abstract":
+                t2 = Sequence.from_abstract_repr(tmpl.to_abstract_repr())
+            else:
+                t2 = legacy_loads(tmpl._serialize())
+        except Exception as e:  # noqa: BLE001  (a document the serializer produced must decode)
+            return obs + [(shape["codec"] + ":param_roundtrip_completes", False)]
         obs.append(("param:decoded_is_parametrized", t2.is_parametrized() and set(t2.declared_variables) == set(tmpl.declared_variables)))
         vals = var_values(inp, P, "v")
         try:
